@@ -149,7 +149,8 @@ def run_c05(ctx):
         r = xyzpy.Runner(fn, var_names=var_names, resources={"ver": 0})
         return xyzpy.Harvester(r, data_name=data_name, engine=engine)
 
-    session = {"h": None, "mem": None}  # mem: model of the session's memory
+    # held: un-synced points that live in THIS session's memory only
+    session = {"h": None, "mem": None, "held": {}}
 
     def get_h():
         if session["h"] is None:
@@ -230,6 +231,7 @@ def run_c05(ctx):
             ctx.t("new_session")
             session["h"] = None
             session["insync"] = False
+            session["held"] = {}
             ctx.stats["op-new_session"] += 1
             continue
         policy = t.pick([None, True, False], "overwrite")
@@ -291,6 +293,7 @@ def run_c05(ctx):
                 return h.add_ds(build_ds(), sync=sync, overwrite=policy)
 
             before_disk = G.snapshot_tree(root)
+            file_existed = G.rexists(file_name)
             _, exc = call("session-op" if h is not None else "script", body, must_succeed=False)
             if conflict:
                 ctx.stats["merge-conflicts"] += 1
@@ -313,6 +316,17 @@ def run_c05(ctx):
                     op, type(exc).__name__, short(str(exc), 300)), site=xyz_site(exc))
             if sync:
                 model.durable = result
+                if op != "save_merge_ds" and session["held"]:
+                    # The only documented way un-synced points get lost is the reload
+                    # from the data file at the start of a synced operation.  If there
+                    # was no file yet there is nothing to reload: what the session
+                    # holds in memory is merged and saved with the new data, so those
+                    # points are acknowledged now.
+                    if not file_existed:
+                        for k, v in session["held"].items():
+                            model.durable.setdefault(k, v)
+                        ctx.stats["unsynced-acknowledged-by-first-save"] += 1
+                    session["held"] = {}
                 if op == "save_merge_ds":
                     # a bare-file merge behind the session's back: the session's
                     # memory is stale until its next synced operation
@@ -324,6 +338,7 @@ def run_c05(ctx):
             else:
                 for k, v in new.items():
                     model.pending[k] = v
+                    session["held"][k] = v
                 ctx.stats["unsynced-harvests"] += 1
                 session["insync"] = False
                 check_state("after-unsynced-" + op, synced=False)
